@@ -279,16 +279,15 @@ Definition parse_nat (s : list N) : option (N * list N) :=
   if Decimal.uint_beq (N.to_uint n) d then Some (n, r) else None.
 
 Definition parse_int64 (s : list N) : option (Z * list N) :=
-  match s with
-  | 45 :: t => match parse_nat t with
-               | Some (n, r) => if n <=? 9223372036854775808 then Some ((- Z.of_N n)%Z, r) else None
-               | None => None
-               end
-  | _ => match parse_nat s with
-         | Some (n, r) => if n <? 9223372036854775808 then Some (Z.of_N n, r) else None
-         | None => None
-         end
-  end.
+  if match s with c :: _ => c =? 45 | [] => false end
+  then match parse_nat (tl s) with
+       | Some (n, r) => if n <=? 9223372036854775808 then Some ((- Z.of_N n)%Z, r) else None
+       | None => None
+       end
+  else match parse_nat s with
+       | Some (n, r) => if n <? 9223372036854775808 then Some (Z.of_N n, r) else None
+       | None => None
+       end.
 
 Definition parse_uint32 (s : list N) : option (N * list N) :=
   match parse_nat s with
@@ -304,9 +303,11 @@ Fixpoint parse_elems (fuel : nat) (s : list N) : option (list N * list N) :=
       match parse_uint32 s with
       | Some (n, r) =>
           match r with
-          | 44 :: r' => match parse_elems f r' with Some (l, r'') => Some (n :: l, r'') | None => None end
-          | 93 :: r' => Some ([n], r')
-          | _ => None
+          | c :: r' =>
+              if c =? 44 then match parse_elems f r' with Some (l, r'') => Some (n :: l, r'') | None => None end
+              else if c =? 93 then Some ([n], r')
+              else None
+          | [] => None
           end
       | None => None
       end
@@ -317,12 +318,15 @@ Definition parse_sums (s : list N) : option (list N * bool * list N) :=
   | Some r => Some ([], false, r)
   | None =>
       match s with
-      | 91 :: 93 :: r => Some ([], true, r)
-      | 91 :: r => match parse_elems (length r) r with
-                   | Some (l, r') => Some (l, false, r')
-                   | None => None
-                   end
-      | _ => None
+      | c :: r =>
+          if c =? 91 then
+            if match r with c2 :: _ => c2 =? 93 | [] => false end then Some ([], true, tl r)
+            else match parse_elems (length r) r with
+                 | Some (l, r') => Some (l, false, r')
+                 | None => None
+                 end
+          else None
+      | [] => None
       end
   end.
 
@@ -592,6 +596,13 @@ Definition cobs_eqb (a b : cobs) : bool :=
 Definition conv_tbl (tbl : list (N * N)) : list (Z * Z) :=
   map (fun p => (to_i64 (fst p), to_i64 (snd p))) tbl.
 
+(* a Go map has distinct keys; the harness sends each key once *)
+Fixpoint nodupb (l : list Z) : bool :=
+  match l with [] => true | x :: t => negb (existsb (Z.eqb x) t) && nodupb t end.
+Definition table_ok (tbl : list (N * N)) : bool :=
+  nodupb (map fst (conv_tbl tbl))
+  && forallb (fun p => (fst p <? 18446744073709551616) && (snd p <? 18446744073709551616)) tbl.   (* uint64 *)
+
 Section Oracle.
 Variable sum : list N -> N.
 Variable sha1 : list N -> list N.
@@ -646,6 +657,7 @@ Definition C02_check (c : cin) (o : cobs) : bool :=
         end
   | CParse _, OParse _ => true          (* the statement does not speak about foreign input *)
   | CTable tbl sizes, OTable ot =>
+      if negb (table_ok tbl) then true else
       match tbl, ot with
       | [], None => true
       | [], Some _ => false
@@ -655,7 +667,7 @@ Definition C02_check (c : cin) (o : cobs) : bool :=
                    (map (lookup_spec (conv_tbl tbl)) sizes) (map Some pls)
       end
   | CGenerate tbl name data, OGenerate og =>
-      if negb (lenZ data <? 9223372036854775808)%Z then true else
+      if negb (lenZ data <? 9223372036854775808)%Z || negb (table_ok tbl) then true else
       match lookup_spec (conv_tbl tbl) (lenZ data) with
       | None => match og with None => true | Some _ => false end
       | Some pl =>
